@@ -32,6 +32,7 @@ structure MW where
   files : List String := []                 -- host sources that are regular files
   srcFlags : List (String × Nat) := []      -- statfs flags of sources
   maskDirs : List String := []              -- mask targets that are directories inside the sandbox
+  mountFails : List String := []            -- targets on which every mount attempt fails (EACCES)
   log : List (String × List Val) := []
   pending : List (String × Val) := []
 
@@ -74,7 +75,8 @@ def ext0 (name : String) (args : List Val) (env : Env) (w : MW) : Except String 
   | "os.Symlink", a => .ok (.nil, rec w "symlink" a)
   | "syscall.Mount", [src, .str tgt, fst, fl, d] =>
     -- binding /dev/null on a directory fails with ENOTDIR
-    if Val.beq src (.str "/dev/null") && w.maskDirs.contains tgt then .ok (.str "ENOTDIR", rec w "mount-enotdir" [src, .str tgt, fst, fl, d])
+    if w.mountFails.contains tgt then .ok (.str "EACCES", rec w "mount-eacces" [src, .str tgt, fst, fl, d])
+    else if Val.beq src (.str "/dev/null") && w.maskDirs.contains tgt then .ok (.str "ENOTDIR", rec w "mount-enotdir" [src, .str tgt, fst, fl, d])
     else .ok (.nil, rec w "mount" [src, .str tgt, fst, fl, d])
   | "syscall.Statfs", [.str src, .strct [("#ref", .str var)]] =>
     let f := match w.srcFlags.find? (fun e => e.1 == src) with | some e => e.2 | none => 0
@@ -199,6 +201,16 @@ def genContainerOps (es : List Entry) (symlinks : List (String × String)) (mask
   match r with
   | some [.nil] => .ok (containerOps "/croot" w.log)
   | _ => .error "initFileSystem failed"
+
+/-- initFileSystem when a mask cannot be applied: `some true` = it returned nil (claimed success) -/
+def genContainerMaskFailure (es : List Entry) (mask : String) : Except String Bool := do
+  let ms ← builtMounts es
+  let c : Val := .strct [("ContainerRoot", .str "/croot"), ("Mounts", .list ms), ("SymbolicLinks", .list []), ("MaskPaths", .list [.str mask])]
+  let (r, _) ← call0 cfg2 Gen.C05.initFileSystem [c] { mountFails := [mask] } 8000
+  match r with
+  | some [.nil] => .ok true
+  | some [_] => .ok false
+  | _ => .error "initFileSystem: no result"
 
 def rawOps (trace : List Sys) : List Op :=
   trace.flatMap (fun s =>
